@@ -90,7 +90,7 @@ StepDet ==
 
 StepInsert ==
   /\ Ev.ev = "InsertLines"
-  /\ InsertLinesAt(Ev.p, Ev.f, Ev.at, Ev.ins)
+  /\ InsertLinesAt(Ev.p, Ev.f, Ev.at, Ev.ins, {Ev.anch[i] : i \in DOMAIN Ev.anch})
   /\ bad' = bad \cup (IF InsertLines(text[Ev.p][Ev.f], Ev.at, Ev.ins) # Ev.lines \/ InsBytes(Ev.ins) # Ev.db
                       THEN {[l |-> l, prop |-> "MODEL", what |-> "edited buffer is not InsertLines of the old one", n |-> 1, first |-> 0]} ELSE {})
 
